@@ -322,6 +322,8 @@ class P:
             return ("matches", e, pats, guard)
         if k == "id" and v.endswith("!"):
             self.next()
+            if v == "write!":
+                return ("macro", v, self.args())
             if v in ("unreachable!", "panic!", "unimplemented!", "todo!"):
                 close = {"(": ")", "[": "]", "{": "}"}[self.peek()]
                 self.skip_balanced(self.peek(), close)
